@@ -1369,6 +1369,26 @@ func init() {
 		u.assume(st, u.facts(st, n, tInt))
 		return []Val{{n, tInt, ""}, e}, true
 	}
+	// strconv.ParseInt(s, 10, 64|0): the decimal integer Atoi parses (a 64-bit int on this platform)
+	models["strconv.ParseInt"] = func(fr *Frame, st *State, args []Val, in ssa.Instruction, pos token.Pos) ([]Val, bool) {
+		u := fr.u
+		ci, ok := in.(ssa.CallInstruction)
+		if !ok || len(ci.Common().Args) != 3 {
+			return nil, false
+		}
+		base, ok1 := ci.Common().Args[1].(*ssa.Const)
+		bits, ok2 := ci.Common().Args[2].(*ssa.Const)
+		if !ok1 || !ok2 || base.Value == nil || bits.Value == nil || base.Int64() != 10 || (bits.Int64() != 64 && bits.Int64() != 0) {
+			return nil, false
+		}
+		u.declItoa()
+		okT := sx("atoi_ok", args[0].T)
+		e := u.freshVal(st, "err", errT)
+		u.assume(st, eq(eq(e.T, "A_nil"), okT))
+		n := u.define("parseint", sInt, ite(okT, sx("atoi", args[0].T), "0"))
+		u.assume(st, u.facts(st, n, types.Typ[types.Int64]))
+		return []Val{{n, types.Typ[types.Int64], ""}, e}, true
+	}
 	_ = sort.Strings
 	initHeapModels()
 	initAtomicModels()
